@@ -112,6 +112,8 @@ def inject(kind, lines, g, rng):
     elif kind == "before-set-logic":
         L.insert(logic_idx, rng.choice(["(assert true)", "(check-sat)", "(declare-fun zz () Bool)", "(push 1)", "(get-model)"]))
     elif kind == "get-model-no-option":
+        if any(":produce-models" in l for l in L):
+            return None            # with the option set get-model is a legal request, not an input problem
         L.append("(get-model)")
     elif kind == "get-value-not-sat":
         L.insert(logic_idx + 1, "(get-value (true))")
